@@ -1,0 +1,7 @@
+//go:build !verif
+
+package node
+
+// The verification accessors of verif_on.go (VerifPoolOf, VerifArgs) exist
+// with the build tag "verif" only. They add no call sites to the package, so
+// there is nothing to stub out here.
